@@ -637,3 +637,37 @@ mod tests {
             }));
     }
 }
+
+#[cfg(feature = "verif-hooks")]
+impl<N: Ord + Clone, D> IntervalTree<N, D> {
+    /// Verification hook (read-only): the nodes in pre-order as
+    /// `(depth, start, end, max, height, has_left, has_right)`.
+    pub fn verif_dump(&self) -> Vec<(usize, N, N, N, i64, bool, bool)> {
+        fn walk<N: Ord + Clone, D>(
+            n: &Node<N, D>,
+            depth: usize,
+            out: &mut Vec<(usize, N, N, N, i64, bool, bool)>,
+        ) {
+            out.push((
+                depth,
+                n.interval.start.clone(),
+                n.interval.end.clone(),
+                n.max.clone(),
+                n.height,
+                n.left.is_some(),
+                n.right.is_some(),
+            ));
+            if let Some(l) = &n.left {
+                walk(l, depth + 1, out);
+            }
+            if let Some(r) = &n.right {
+                walk(r, depth + 1, out);
+            }
+        }
+        let mut out = Vec::new();
+        if let Some(r) = &self.root {
+            walk(r, 0, &mut out);
+        }
+        out
+    }
+}
